@@ -7,8 +7,9 @@ CLAIMED = {
     "text": "Bounded symbolic model checking of the real time_code.py: from_frames/to_frames/add_frames/"
             "to_temporal_offset/parse/__str__ and ClockTime.from_seconds/parse are executed on symbolic frame counts "
             "and rational seconds; each conjunct of the property is an SMT query answered unsat for every frame count "
-            "in [0,24h) at 8 rates and every rational in [0,100h). Exhaustive within the stated bounds by solver "
-            "verdict, not by enumeration.",
+            "in [0,24h) at 8 rates and every rational in [0,100h); ClockTime.from_seconds additionally on the grids k/d, "
+            "d in {3,7,15,30,1000,1001}, where the lowest-terms numerator/denominator the code may take are case-split over "
+            "gcd(k,d). Exhaustive within the stated bounds by solver verdict, not by enumeration.",
     "note": "Trusted: z3; the proxy number classes of vf/symrun.py (validated per run by re-executing sampled path "
             "models natively); float steps int/const are exact-rational cuts justified by QF_BVFP lemmas discharged "
             "in the same run; CPython int formatting; float arguments of ClockTime.from_seconds are outside the claim.",
@@ -67,7 +68,8 @@ CLAIMED.update({
 CLAIMED.update({
   "C15": {
     "text": "Inductive-step model checking of the real model API: every forest reachable by building through the API over 7 "
-            "five-element typed universes (2 documents, 3 regions) is a pre-state (selectors decided by the solver); one of "
+            "five-element typed universes (2 documents, 3 regions; body registered or not, region references on the first two "
+            "elements, the last one or two elements possibly detached) is a pre-state (selectors decided by the solver); one of "
             "14 operations with every argument tuple (valid and invalid) follows; the representation invariant (links, "
             "acyclicity, single parent, one document per tree, content model incl. ruby/rtc, region references registered, "
             "only valid values stored) and 'rejected => unchanged' are asserted. Exhaustive within the universes.",
@@ -80,7 +82,8 @@ CLAIMED.update({
     "text": "All 65 536 words: byte 1 case-split, byte 2 a symbolic integer in [0,255]; the real SccWord.from_bytes, the "
             "six code tables' find(), get_channel, PAC/mid-row attribute decoding and to_text run on it; class, channel, "
             "row/indent/colour/italic/underline and characters are compared per path with a z3 term written from the CEA-608 "
-            "bit-pattern description (no ttconv table is read by the reference). Exhaustive by solver verdict.",
+            "bit-pattern description (no ttconv table is read by the reference). Exhaustive by solver verdict. The line "
+            "disassembly is checked on all lines of 1-3 words from a 25-word menu (every word rendered, channel labels).",
     "note": "Trusted: z3, proxies, the reference table in vf/props/c17.py (colours compared by family, glyph-like extended "
             "characters by a set of acceptable code points). Disassembly of lines is not covered yet.",
     "technique": "symbolic execution with a z3 Int byte, differential against a bit-pattern reference",
@@ -94,7 +97,8 @@ CLAIMED.update({
             "%, px, c, rh with edges), times, animation intervals and safe_area are symbols: the listed post-conditions "
             "(no steps, style whitelist, region == safe area, no two equal regions, references redirected), preservation of "
             "the text timeline against the R-ISD oracle for a symbolic query time, computed colour/background/alignment, "
-            "no exception and idempotence are SMT queries on every path.",
+            "no exception and idempotence (also with the same filter object) are SMT queries on every path; colour and "
+            "background colour are configured independently.",
     "note": "Geometry floats (100/rows etc.) are relaxed to reals; skeletons x layout kinds are the bound; em units outside.",
     "technique": "symbolic execution with z3 Real/Int proxies, post-conditions and oracle comparison per path",
     "design": "DESIGN.md §3 C16",
@@ -154,7 +158,7 @@ CLAIMED.update({
   "C11": {
     "text": "WebVTT reader: exact timestamps (as C10); _get_or_make_region with symbolic percentages/line numbers for every "
             "combination of vertical/line/position/size/align (inside-root, non-negative extent, writing mode, alignments, "
-            "region sharing as SMT queries); tokenizer compared with the W3C cue text tokenizer on all strings <= 5 over an "
+            "the cue box anchored at the position along the writing direction, region sharing as SMT queries); tokenizer compared with the W3C cue text tokenizer on all strings <= 5 over an "
             "8-character alphabet; cue-text tree for all sequences of <= 4 tokens from a 22-token menu against a reference "
             "scoper; file-level block sequences; writer output re-read.",
     "note": "Number parsers are stubbed by symbolic integers in the region harness (real parsers run in the file harness). "
@@ -166,7 +170,9 @@ CLAIMED.update({
     "text": "Union of the robustness assertions carried by every harness: on every explored path no reader raises anything but "
             "the documented input-format errors, and ISD generation, filters and writers do not raise on the documents built. "
             "Claimed only inside the bounded grammars of those harnesses (SRT/VTT line and token sequences, cue text <= 5 chars, "
-            "model documents of the ISD/writer/LCD harnesses with all rational times).",
+            "model documents of the ISD/writer/LCD harnesses with all rational times, IMSC documents with malformed styles and "
+            "document parameters, style reference cycles, STL block sequences incl. cumulative sets, every SCC word sequence of "
+            "length <= 3 over a 21-word menu).",
     "note": "Arbitrary byte strings, the XML parser, SCC/STL/IMSC reader inputs not yet covered by a harness are outside. Known "
             "findings: sub-millisecond cue ValueError, ruby with inactive annotation, WebVTT ruby combinations.",
     "technique": "symbolic execution / bounded exhaustive exploration, exception outcome asserted on every path",
@@ -215,7 +221,10 @@ CLAIMED.update({
             "clock time and clock time with frames with symbolic integer fields through the reader's own regexes (hole tokens), 5 "
             "frame rates, symbolic tick rate; (c) 21 style attributes x well-formed/malformed values on region/p/span: no "
             "exception, logged, neighbours unchanged; (d) style precedence graphs (inline/nested/referential/chained/diamond/"
-            "missing/initial), xml:space/lang inheritance, anonymous spans.",
+            "missing/initial, chains of depth 2-3 in every declaration order, reference cycles), xml:space/lang inheritance incl. "
+            "empty and overridden xml:lang, anonymous spans for mixed content under par/seq parents; (e) document parameter "
+            "attributes on tt (frame/tick rates, multiplier, extent, cell resolution, aspect ratio, active area) with well-formed "
+            "and malformed values next to time expressions that depend on them.",
     "note": "parse_time_expression is stubbed in (a) and decided separately in (b); fractional digit fields only with concrete "
             "strings; (c),(d) are selector enumerations over real XML strings. timeContainer on p/span, set and region timing via "
             "XML, ruby containers and frameRateMultiplier parsing are outside.",
